@@ -35,6 +35,14 @@ pub const PROFILES: [&str; 17] = [
 
 pub fn profile_cfg(profile: &str, content: &mut Rng) -> RunCfg {
     let mut c = base_cfg(content, profile);
+    // Swarm knobs for interleaving depth (not in the sweep base / config / E2 pay+wait profiles).
+    if matches!(
+        profile,
+        "plain" | "mpp" | "isolation" | "overlap" | "heights" | "faults" | "inputs" | "wire" | "e2watch"
+    ) {
+        c.f_yield = *content.pick(&[0u32, 0, 0, 100, 400]);
+        c.f_multi = *content.pick(&[0u32, 0, 150, 300]);
+    }
     match profile {
         "plain" => {
             c.f_rpc_reorder = 300;
@@ -757,9 +765,43 @@ impl RandomSched {
         // Freeze decision (C14): after some progress, freeze hash 0 for good.
         let weights: Vec<u32> = cands.iter().map(|c| c.1).collect();
         let i = self.rng.pick_weighted(&weights);
-        let op = cands.swap_remove(i).0;
+        let mut op = cands.swap_remove(i).0;
         if let Op::Offer { .. } = op {
             self.sets_offered += 1;
+        }
+        // Several things become runnable in the same step.
+        let batchable = |o: &Op| matches!(o, Op::Apply { .. } | Op::Reply { .. } | Op::Deliver { .. });
+        if c.f_multi > 0 && batchable(&op) && self.rng.permille(c.f_multi) {
+            let key = |o: &Op| -> (u8, u8, u8) {
+                match o {
+                    Op::Apply { rpc, .. } => (1, rpc.method as u8, rpc.hash),
+                    Op::Reply { rpc } => (2, rpc.method as u8, rpc.hash),
+                    _ => (3, 0, 0),
+                }
+            };
+            let mut ops = vec![op.clone()];
+            let mut used = vec![key(&op)];
+            self.rng.shuffle(&mut cands);
+            for (o, _) in cands.iter() {
+                if ops.len() >= 3 {
+                    break;
+                }
+                if !batchable(o) {
+                    continue;
+                }
+                let k = key(o);
+                if used.contains(&k) {
+                    continue;
+                }
+                if let (Op::Deliver { .. }, true) = (o, used.iter().any(|u| u.0 == 3)) {
+                    continue;
+                }
+                used.push(k);
+                ops.push(o.clone());
+            }
+            if ops.len() > 1 {
+                op = Op::Multi { ops };
+            }
         }
         self.last_apply_method = match &op {
             Op::Apply { rpc, fault, .. } if *fault != RpcFault::Transport => Some(rpc.method),
@@ -1093,6 +1135,32 @@ impl Scheduler for WatcherSched {
                 },
                 30,
             ));
+            // Two height sources in the same step (two notifications, or a
+            // notification together with a poll reply).
+            {
+                let nb2 = match self.rng.below(4) {
+                    0 => nb.saturating_sub(1 + self.rng.below(20) as u32),
+                    1 => nb.saturating_add(1 + self.rng.below(20) as u32),
+                    2 => told.saturating_add(2),
+                    _ => h,
+                };
+                let mut ops = vec![
+                    Op::Comp {
+                        cmd: "new_block".into(),
+                        arg: nb as u64,
+                    },
+                    Op::Comp {
+                        cmd: "new_block".into(),
+                        arg: nb2 as u64,
+                    },
+                ];
+                if let Some(i) = first_ready {
+                    if self.rng.chance(1, 2) {
+                        ops.insert(self.rng.below(3) as usize, Op::Reply { rpc: sim.sel_of(i) });
+                    }
+                }
+                cands.push((Op::Multi { ops }, 25));
+            }
             cands.push((
                 Op::Block {
                     k: 1 + self.rng.below(3) as u32,
